@@ -135,6 +135,8 @@ SPEC_FUNCS = {
     "t_functor": _sf(STR, lambda t: acc(t, "Struct", 1)),
     "t_args": _sf(TList(TERM), lambda t: acc(t, "Struct", 2)),
     "t_arity": _t_arity,
+    "round15": _sf(FLOAT, lambda x: float_sort().Fin(z3.Function("round15", z3.RealSort(), z3.RealSort())(
+        float_sort().r(x)))),
 }
 
 
@@ -284,6 +286,48 @@ class TermMixin(object):
             self.safety(z3.BoolVal(False), "TypeError", "ordering-%s-%s" % (a.ty, b.ty), node)
             raise PathEnd()
         raise Unsupported("ordering on %s, %s" % (a.ty, b.ty))
+
+    def as_term(self, v):
+        """A Python value used as a term argument: Term objects, ints (numbered variables), None."""
+        if v.ty == TERM:
+            return v.t
+        if v.ty == INT:
+            return K("VInt")[0](v.t)
+        if v.ty == NONE:
+            return K("VNone")[0]()
+        raise Unsupported("%s as a term argument" % v.ty)
+
+    def term_construct(self, clsname, args, kwargs, node):
+        """Term(...), Constant(...), Var(...), Not(...) of problog.logic (A-term: the constructors build
+        the tree; Constant rounds float payloads to FLOAT_PRECISION = 15 decimals)."""
+        if clsname == "Constant":
+            v = args[0]
+            if v.ty == INT:
+                return Val(TERM, K("CInt")[0](v.t))
+            if v.ty == STR:
+                return Val(TERM, K("CStr")[0](v.t))
+            if v.ty == FLOAT:
+                X = XR()
+                if not self.spec_mode:
+                    self.ctx.oblige(X.is_Fin(v.t), "%s/safety:Constant-of-non-finite#%d" % (self.ctx.fnname, self.site(node)),
+                                    "safety", getattr(node, "lineno", 0))
+                r15 = z3.Function("round15", z3.RealSort(), z3.RealSort())
+                self.assumptions.add("Constant(float) stores round(value, 15) (uninterpreted round15)")
+                return Val(TERM, K("CFloat")[0](r15(X.r(v.t))))
+            raise Unsupported("Constant(%s)" % v.ty)
+        if clsname == "Var":
+            return Val(TERM, K("VNamed")[0](args[0].t))
+        if clsname in ("Term", "Not"):
+            f = args[0]
+            if f.ty != STR:
+                raise Unsupported("Term with a non-string functor")
+            items = [self.as_term(a) for a in args[1:]]
+            arr = z3.K(z3.IntSort(), K("VNone")[0]())
+            for i, it in enumerate(items):
+                arr = z3.Store(arr, i, it)
+            lst = tlist_sort().constructor(0)(z3.IntVal(len(items)), arr)
+            return Val(TERM, K("Struct")[0](z3.IntVal(SCLS[clsname]), f.t, lst))
+        raise Unsupported("construction of %s" % clsname)
 
     def term_identical_none(self, v):
         return is_kind(v.t, "VNone")
